@@ -1,8 +1,9 @@
 import Driver.Decode
 import CminxProps.TLex
+import CminxModel.SpecSeq
 /-!
 `validcheck`: evaluates, on decorated modules sent by the harness, the *hypotheses* of the refinement theorems —
-`Module.valid` (T_lex / T_roundtrip / T_pipeline), `itemsWf` and the K1 guard (T_agg) — so that the evidence can state how
+`Module.valid` (T_lex / T_roundtrip / T_pipeline), `itemsWf` and the K1 guard (T_agg), `itemsWfS` (T_aggS: split declarations, documented implementing definitions) — so that the evidence can state how
 many of the generated correspondence inputs lie inside the theorems' domain.  Separate from `driver` because it imports
 proof files.
 -/
@@ -10,7 +11,7 @@ open Lean Cminx
 
 def handleValid (j : Json) : Except String Json := do
   let m ← moduleOf (← j.getObjVal? "module")
-  pure (Json.mkObj [("valid", m.valid), ("wf", itemsWf false m.items), ("documented_class", itemsHaveDocumentedClass m.items),
+  pure (Json.mkObj [("valid", m.valid), ("wf", itemsWf false m.items), ("wf_seq", itemsWfS false false m.items), ("documented_class", itemsHaveDocumentedClass m.items),
     ("dangling_ok", m.danglingOk)])
 
 partial def loopValid (hin hout : IO.FS.Stream) : IO Unit := do
